@@ -27,6 +27,7 @@ import BV.Props.C04
 import BV.Props.C01
 import BV.Model.MetaBlock
 import BV.Lemmas.StreamRunMdRead
+import BV.Props.C15
 
 namespace BV.Props.C04Run
 open BV.Stream BV.Bits
@@ -84,6 +85,15 @@ theorem blocks_append {wo : WordOracle} {window : Nat} {large : Bool} {pos : Nat
     refine Blocks.cons h (ih ?_)
     have : pos + b0.length + bs.length = pos + (b0 ++ bs).length := by simp [Nat.add_assoc]
     rw [this]; exact h2
+
+/-- one complete non-last meta-block is `Blocks` — the bridge from the writer round-trip theorems
+(`cbr_fast_roundtrip`, `cbr_trivial_roundtrip`, `fast_metablock_roundtrip`, … of C01Chain / C01MetaBlock, whose
+conclusion for `isLast = false` is literally the hypothesis here) to the pieces of `PayloadDecode` -/
+theorem blocks_one {wo : WordOracle} {window : Nat} {large : Bool} {pos : Nat} {s s' : RdSt} {bits : List Bool}
+    (h : ∀ rest, readMetaBlockFull wo window large pos s (bits ++ rest) = some (s', false, pos + bits.length, rest)) :
+    Blocks wo window large pos s bits s' := by
+  have := Blocks.cons (bs := []) h (Blocks.nil _ _)
+  simpa using this
 
 /-- **reader_needs_more_at_boundary**: bits that end exactly at a meta-block boundary (no ISLAST seen)
 make the streaming reader answer "need more input" with the content so far — not an error, and it
@@ -374,6 +384,40 @@ theorem flush_prefix_read_by_stream_reader {wo : WordOracle} {o : Oracle} {fuel 
   rw [this, hout']
 
 
+/-! ## the stream model's header is the header model's -/
+
+/-- the stream model's `EncodeWindowBits` is the header model's (the one C15's `wbits_roundtrip` is about) on
+every window `ensure_initialized` can pass (10..30, both forms) -/
+theorem stream_encodeWindowBits_eq_header :
+    ∀ (w : Fin 21) (lw : Bool), BV.Stream.encodeWindowBits ((w.val + 10 : Nat) : Int) lw
+      = BV.Header.encodeWindowBits ((w.val + 10 : Nat) : Int) lw := by
+  decide +kernel
+
+/-- **stream_header_is_declared_window**: the bits the stream model's `ensure_initialized` stages for a fresh
+encoder with parameters `p` (the `window` event of every log) are read by the RFC 9.1 reader as the window
+`clampWindow p.quality p.lgwin p.large_window` in the requested form — C15's `declared_window`, now for the
+STREAM model (no correspondence step in between) -/
+theorem stream_header_is_declared_window {sf : St} (hf : IsFresh sf) (rest : List Bool) :
+    BV.HeaderSpec.readWbits ((ensureInitialized sf).carry ++ rest)
+      = some ((BV.HeaderSpec.clampWindow sf.params.quality sf.params.lgwin sf.params.largeWindow).toNat,
+          sf.params.largeWindow, rest) := by
+  obtain ⟨p, rfl⟩ := hf
+  obtain ⟨h1, h2, h3⟩ := BV.Header.clampWindow_range p.quality p.lgwin p.largeWindow
+  have hcl : (if (sanitize p).quality = 0 ∨ (sanitize p).quality = 1 then max (sanitize p).lgwin 18 else (sanitize p).lgwin)
+      = BV.HeaderSpec.clampWindow p.quality p.lgwin p.largeWindow := by
+    simp only [sanitize, BV.HeaderSpec.clampWindow]
+    cases p.largeWindow <;> simp <;> split <;> split <;> omega
+  obtain ⟨w, hw⟩ : ∃ w : Fin 21, BV.HeaderSpec.clampWindow p.quality p.lgwin p.largeWindow = ((w.val + 10 : Nat) : Int) :=
+    ⟨⟨(BV.HeaderSpec.clampWindow p.quality p.lgwin p.largeWindow).toNat - 10, by omega⟩, by simp only []; omega⟩
+  have hcarry : (ensureInitialized { St.new with params := p }).carry
+      = bitsOf (BV.Header.encodeWindowBits (BV.HeaderSpec.clampWindow p.quality p.lgwin p.largeWindow) p.largeWindow).2
+          (BV.Header.encodeWindowBits (BV.HeaderSpec.clampWindow p.quality p.lgwin p.largeWindow) p.largeWindow).1 := by
+    have hlw : (sanitize p).largeWindow = p.largeWindow := rfl
+    simp only [ensureInitialized, St.new, St.carry, Bool.false_eq_true, if_false, hcl, hlw]
+    rw [hw, stream_encodeWindowBits_eq_header w p.largeWindow]
+  rw [hcarry]
+  exact (BV.Props.C15.wbits_roundtrip _ _ h1 h2 h3 rest).1
+
 /-! ## histories WITH metadata: only the payload pieces remain hypotheses
 
 `run_factsX` (BV/Lemmas/StreamRunMd.lean) adds to the log of a history the ALIGNMENT of every padding block
@@ -607,6 +651,7 @@ theorem flush_prefix_read_by_stream_reader_md {wo : WordOracle} {o : Oracle} {fu
     ∃ (log : List Ev) (header : List Bool),
       bytesBits t.delivered = header ++ logBodyBits o log ∧ s.inputPos = logCopied log ∧
       ((∀ e ∈ log, ∀ k r, e ≠ .fast k r) → logAdv ⟨0, 0, 0, 0⟩ log = s.inputPos) ∧
+      (log = [] ∨ ∃ sf, IsFresh sf ∧ header = (ensureInitialized sf).carry) ∧
       ∀ (input : Bytes) (lgwin : Nat) (large : Bool),
         (∀ rest, BV.HeaderSpec.readWbits (header ++ rest) = some (lgwin, large, rest)) →
         PayloadDecode (DecRd wo (2 ^ lgwin - 16) large header.length ⟨[], [4, 11, 15, 16]⟩ input) input o 0 ⟨0, 0, 0, 0⟩ log →
@@ -635,11 +680,11 @@ theorem flush_prefix_read_by_stream_reader_md {wo : WordOracle} {o : Oracle} {fu
   rw [mdOpen_fresh hf, mdOpen_of_not_md (by rw [hst]; simp)] at hopn
   have hini0 : s0.isInitialized = false := isFreshInit hf
   rcases f.win with ⟨_, _, rfl⟩ | ⟨_, _, b, rest, rfl, hnw⟩ | ⟨a1, _, _⟩
-  · refine ⟨[], [], by rw [hb]; rfl, hipc, hadv, ?_⟩
+  · refine ⟨[], [], by rw [hb]; rfl, hipc, hadv, Or.inl rfl, ?_⟩
     intro input lgwin large hhdr _
     have := hhdr []
     simp [BV.HeaderSpec.readWbits] at this
-  · refine ⟨.window b :: rest, b, ?_, hipc, hadv, ?_⟩
+  · refine ⟨.window b :: rest, b, ?_, hipc, hadv, Or.inr (f.hdr _ List.mem_cons_self b rfl), ?_⟩
     · rw [hb]
       show logBits o (.window b :: rest) = b ++ logBodyBits o (.window b :: rest)
       have : logBodyBits o (.window b :: rest) = logBodyBits o rest := rfl
@@ -666,6 +711,35 @@ theorem flush_prefix_read_by_stream_reader_md {wo : WordOracle} {o : Oracle} {fu
         simp [logAdv, Ev.adv, Ev.step]
       rw [this, Nat.zero_add]
   · rw [hini0] at a1; cases a1
+
+/-- **flush_prefix_read_by_stream_reader_closed** — no hypothesis about the header left.  For every history on a
+fresh encoder with at least one `compress_stream` call that ends with a completed flush in state PROCESSING there
+are a log and the parameters `p` in force at the first call such that the delivered bytes start with the window
+bits for `W = clampWindow p.quality p.lgwin p.large_window` (`stream_header_is_declared_window`), and if the
+payload-encoder events decode for a reader with the window `2^W − 16` in form `p.large_window`
+(`PayloadDecode (DecRd …)`), the streaming RFC reader fed exactly the delivered bytes answers `needMore` with the
+input covered so far. -/
+theorem flush_prefix_read_by_stream_reader_closed {wo : WordOracle} {o : Oracle} {fuel : Nat}
+    {calls : List Call} {s0 s : St} {t : Trace}
+    (hf : IsFresh s0) (hops : HistOK calls) (hw : histLen calls < two64)
+    (h : run o fuel calls s0 {} = .ok (s, t)) (hF : Flushed s) (hst : s.streamState = .processing) :
+    ∃ (log : List Ev) (header : List Bool),
+      bytesBits t.delivered = header ++ logBodyBits o log ∧
+      ((∀ e ∈ log, ∀ k r, e ≠ .fast k r) → logAdv ⟨0, 0, 0, 0⟩ log = s.inputPos) ∧
+      (log = [] ∨ ∃ p : BV.Stream.Params,
+        (∀ rest, BV.HeaderSpec.readWbits (header ++ rest)
+          = some ((BV.HeaderSpec.clampWindow p.quality p.lgwin p.largeWindow).toNat, p.largeWindow, rest)) ∧
+        ∀ input : Bytes,
+          PayloadDecode (DecRd wo (2 ^ (BV.HeaderSpec.clampWindow p.quality p.lgwin p.largeWindow).toNat - 16) p.largeWindow
+            header.length ⟨[], [4, 11, 15, 16]⟩ input) input o 0 ⟨0, 0, 0, 0⟩ log →
+          readStreamPrefix wo (bytesBits t.delivered) = .needMore (input.take (logAdv ⟨0, 0, 0, 0⟩ log))) := by
+  obtain ⟨log, header, hb, _, hadv, hh, hrd⟩ := flush_prefix_read_by_stream_reader_md (wo := wo) hf hops hw h hF hst
+  refine ⟨log, header, hb, hadv, ?_⟩
+  rcases hh with h0 | ⟨sf, hsf, rfl⟩
+  · exact Or.inl h0
+  · refine Or.inr ⟨sf.params, fun rest => stream_header_is_declared_window hsf rest, ?_⟩
+    intro input hpay
+    exact hrd input _ _ (fun rest => stream_header_is_declared_window hsf rest) hpay
 
 /-! ## non-vacuity -/
 
